@@ -1223,6 +1223,55 @@ Proof.
   - constructor; [|constructor; [|constructor]]; split; cbn; congruence.
 Qed.
 
+(* ---- containers over views of other containers *)
+Lemma map_column_major6 {A B} (f : A -> B) sh l : map f (column_major sh l) = column_major sh (map f l).
+Proof.
+  unfold column_major. destruct sh as [|[? rows] [|[? cols] [|]]]; try reflexivity.
+  induction (seq 0 cols) as [|j r IH]; cbn [flat_map map]; [reflexivity|].
+  rewrite map_app, IH, map_column_of. reflexivity.
+Qed.
+
+Lemma sim_view x j ct cenv et eenv ctgt etgt fenv kind a ct' cs et' es :
+  Inv x j ct cenv et eenv ctgt etgt fenv ->
+  cstep ops (ct, cenv) (OView kind a) = Some (Ok (ct', cs)) ->
+  estep ops (et, eenv) (OView kind a) = Some (Ok (et', es)) ->
+  exists fs, Inv x j ct' (cenv ++ cs) et' (eenv ++ es) ctgt etgt (fenv ++ fs) /\ length cs = 1.
+Proof.
+  intros I. cbn [cstep estep].
+  destruct (nth_error cenv a) as [cx|] eqn:Ea; [|discriminate].
+  destruct (Inv_get _ _ _ _ _ _ _ _ _ _ _ I Ea) as (ex & ds & Ee & Hc & He & [L1 L2]). rewrite Ee.
+  rewrite <- L1, <- L2. pose proof I as (G1 & _ & _ & G2 & _).
+  assert (P : forall tensor sh, exists fs,
+              Inv x j ct (cenv ++ [mkCont tensor sh (column_major (c_shape cx) (c_data cx)) (c_hist cx)])
+                  et (eenv ++ [mkECont tensor sh (column_major (c_shape cx) (e_recs ex))]) ctgt etgt (fenv ++ fs) /\
+              length [mkCont tensor sh (column_major (c_shape cx) (c_data cx)) (c_hist cx)] = 1).
+  { intros tensor sh. exists [column_major (c_shape cx) ds]. split; [|reflexivity].
+    apply (Inv_op _ _ _ _ _ _ _ _ _ _ _ _ _ _ _ _ I (ext_refl _ _ G1) (ext_refl _ _ G2)).
+    - constructor; [|constructor]. unfold cont_ok in *. rewrite as_records_mk in *. cbn [c_data c_hist].
+      rewrite map_column_major6. apply Forall2_column_major. exact Hc.
+    - constructor; [|constructor]. unfold eok in *. cbn [e_recs]. apply Forall2_column_major. exact He.
+    - constructor; [|constructor]. split; reflexivity. }
+  destruct kind as [|[|[|[|k]]]]; try discriminate.
+  - destruct (c_tensor cx); [|discriminate]. destruct (c_shape cx) as [|[n0 r] [|[n1 c] [|]]] eqn:Es; try discriminate.
+    intros E; inversion E; subst ct' cs; clear E. intros E; inversion E; subst et' es; clear E.
+    exact (P false [(0, c); (1, r)]).
+  - destruct (c_tensor cx); [|discriminate]. destruct (c_shape cx) as [|[n0 r] [|[n1 c] [|]]] eqn:Es; try discriminate.
+    intros E; inversion E; subst ct' cs; clear E. intros E; inversion E; subst et' es; clear E.
+    exact (P true [(n1, c); (n0, r)]).
+  - intros E; inversion E; subst ct' cs; clear E. intros E; inversion E; subst et' es; clear E.
+    exists [map (fun d : dual => (fst d, rO)) ds]. split; [|reflexivity].
+    apply (Inv_op _ _ _ _ _ _ _ _ _ _ _ _ _ _ _ _ I (ext_refl _ _ G1) (ext_refl _ _ G2)).
+    + constructor; [|constructor]. unfold cont_ok in *. rewrite as_records_mk in *. cbn [c_data c_hist].
+      clear -Hc. revert ds Hc. induction (c_data cx) as [|p r IH]; intros ds Hc; inversion Hc; subst; cbn [map]; constructor.
+      * destruct H1 as [Hv _]. split; [exact Hv|reflexivity].
+      * apply IH. assumption.
+    + constructor; [|constructor]. unfold eok in *. cbn [e_recs].
+      clear -He. revert ds He. induction (e_recs ex) as [|q r IH]; intros ds He; inversion He; subst; cbn [map]; constructor.
+      * destruct H1 as [Hv _]. split; [exact Hv|reflexivity].
+      * apply IH. assumption.
+    + constructor; [|constructor]. split; reflexivity.
+Qed.
+
 (* ------------------------------------------------------------------ whole programs *)
 (* operation kinds covered by the simulation proof below *)
 Definition supported (o : cop R) : bool :=
@@ -1284,6 +1333,9 @@ Proof.
     rewrite app_length, Hl. reflexivity.
   - cbn [supported] in Hs. apply andb_true_iff in Hs as [Hs1 Hs2].
     destruct (sim_fromiters2 _ _ _ _ _ _ _ _ _ _ _ _ _ _ _ _ Hs1 Hs2 I Hc He) as (fs & I' & Hl).
+    exists fs, ctgt, etgt. split; [exact I'|]. split; [auto|]. split; [contradiction|].
+    rewrite app_length, Hl. reflexivity.
+  - destruct (sim_view _ _ _ _ _ _ _ _ _ _ _ _ _ _ _ I Hc He) as (fs & I' & Hl).
     exists fs, ctgt, etgt. split; [exact I'|]. split; [auto|]. split; [contradiction|].
     rewrite app_length, Hl. reflexivity.
 Qed.
